@@ -255,6 +255,82 @@ func guardedByCall(fn *ssa.Function, at ssa.Instruction, callee string, want boo
 					edges = append(edges, e.Edge)
 				}
 			}
+			// the result kept in a field of a local struct and tested there
+			if cc.Referrers() != nil {
+				for _, rf := range *cc.Referrers() {
+					st, ok := rf.(*ssa.Store)
+					if !ok || st.Val != ssa.Value(cc) {
+						continue
+					}
+					fa, ok := st.Addr.(*ssa.FieldAddr)
+					if !ok {
+						continue
+					}
+					al, ok := fa.X.(*ssa.Alloc)
+					if !ok || al.Referrers() == nil {
+						continue
+					}
+					// no other store to that field
+					single := true
+					var loads []ssa.Value
+					// the struct may be built in a temporary and copied whole into the variable
+					holders := []*ssa.Alloc{al}
+					for _, r2 := range *al.Referrers() {
+						if whole, ok := r2.(*ssa.UnOp); ok && whole.Op == token.MUL && whole.Referrers() != nil {
+							for _, r3 := range *whole.Referrers() {
+								if cp, ok := r3.(*ssa.Store); ok && cp.Val == ssa.Value(whole) {
+									if al2, ok := cp.Addr.(*ssa.Alloc); ok && al2.Referrers() != nil {
+										holders = append(holders, al2)
+									}
+								}
+							}
+						}
+					}
+					for _, hal := range holders[1:] {
+						for _, r2 := range *hal.Referrers() {
+							fa2, ok := r2.(*ssa.FieldAddr)
+							if !ok || fa2.Field != fa.Field || fa2.Referrers() == nil {
+								continue
+							}
+							for _, r3 := range *fa2.Referrers() {
+								switch y := r3.(type) {
+								case *ssa.Store:
+									single = false
+									_ = y
+								case *ssa.UnOp:
+									loads = append(loads, y)
+								}
+							}
+						}
+					}
+					for _, r2 := range *al.Referrers() {
+						fa2, ok := r2.(*ssa.FieldAddr)
+						if !ok || fa2.Field != fa.Field || fa2.Referrers() == nil {
+							continue
+						}
+						for _, r3 := range *fa2.Referrers() {
+							switch y := r3.(type) {
+							case *ssa.Store:
+								if y != st {
+									single = false
+								}
+							case *ssa.UnOp:
+								loads = append(loads, y)
+							}
+						}
+					}
+					if !single {
+						continue
+					}
+					for _, ld := range loads {
+						for _, e := range condEdges(ld) {
+							if e.truth == want {
+								edges = append(edges, e.Edge)
+							}
+						}
+					}
+				}
+			}
 		}
 	}
 	if len(edges) == 0 {
